@@ -29,11 +29,11 @@ var logger = slog.New(slog.NewTextHandler(io.Discard, nil))
 
 var (
 	classicNames = []string{"foo", "a1", "_x", "alertname", "A_b_9"}
-	utf8Names    = []string{"fóo", "a b", "a=b", `a"b`, "a{b", "a}b", "😀", "a,b", `a\b`, "a'b", "a`b", "a\nb", "a!b", "a~b", " x", "1a", "a.b", "a-b", "a:b", "n\uFFFDm", "\uFFFD", "n\u00a0m", "e\u0301", "\U0010FFFF"}
+	utf8Names    = []string{"fóo", "a b", "a=b", `a"b`, "a{b", "a}b", "😀", "a,b", `a\b`, "a'b", "a`b", "a\nb", "a!b", "a~b", " x", "1a", "a.b", "a-b", "a:b", "n\uFFFDm", "\uFFFD", "n\u00a0m", "e\u0301", "\U0010FFFF", "a\x01b", "tag\x7f", "x\u009fy", "\x00"}
 	values       = []string{"", "bar", "a b", `a"b`, `a\b`, "a\nb", "a\tb", "{a}", "a,b", `\n`, `a\`, `\`, `\\`, " lead", "trail ", "é😀", "a=b", "!~", "'q'", "`q`", `"`, `""`, `a\"b`, "a}", "{", "}", ",", "x\\ny", `\"`, "a\rb", "multi\nline\n", `C:\dir\n`, "ü", "a\uFFFDb", "\uFFFD", "x\u00a0", "\u2003y", "a\u0085", "\ufeffa", "a\u2028b", "\U0010FFFF", "e\u0301", "\x00", "a\vb"}
-	regexValues  = []string{".*", "a|b", "[ab]+", `\d+`, "a.b", "(x|y)z", `a\.b`, `"q"`, "", ".+", `\\`, "a{1,2}", "[^,]+", `\{x\}`, "é+", `a\nb`}
+	regexValues  = []string{"^(?:a)|(?:b)$", "^(?:a|b)$", "^(?:xz)|(?:1)$", ".*", "a|b", "[ab]+", `\d+`, "a.b", "(x|y)z", `a\.b`, `"q"`, "", ".+", `\\`, "a{1,2}", "[^,]+", `\{x\}`, "é+", `a\nb`}
 	ops          = []string{"=", "!=", "=~", "!~"}
-	probes       = []string{"", "a", "b", "ab", "a.b", "axb", "xz", "yz", "1", "12", `"q"`, `\`, "{x}", "é", "éé", "a\nb", "aa", ","}
+	probes       = []string{"ax", "xb", "xz9", "91", "", "a", "b", "ab", "a.b", "axb", "xz", "yz", "1", "12", `"q"`, `\`, "{x}", "é", "éé", "a\nb", "aa", ","}
 )
 
 func mtype(op string) labels.MatchType {
@@ -356,7 +356,7 @@ func TestSemantics(t *testing.T) {
 	run := vf.Cur()
 	sub := run.Sub("semantics", "lists of 1-3 matchers (all operators, regexes incl. alternations, character classes, anchors-looking text, newlines in values) against label sets over the same vocabulary plus missing labels, empty values and values with newlines: labels.Matchers.Matches and MatcherSet.Matches must equal the reference (conjunction within a list, disjunction over sets, a missing label reads as the empty string, '='/'!=' compare whole strings, '=~'/'!~' test the fully anchored expression, decided independently by leftmost-longest matching); non-trivial = some matcher is a regex or some label is missing; distinct by (matchers, label set)", 500)
 	n := run.N(100000, 10000000)
-	vals := []string{"", "a", "b", "ab", "a.b", "axb", "xz", "1", "12", "a\nb", "éé", "{x}", "a,b", "bar", "A", "B"}
+	vals := []string{"", "ax", "xb", "a", "b", "ab", "a.b", "axb", "xz", "1", "12", "a\nb", "éé", "{x}", "a,b", "bar", "A", "B"}
 	names := []string{"foo", "a1", "fóo", "a b"}
 	for i := 0; i < n; i++ {
 		r := sub.Rand(i)
